@@ -162,6 +162,12 @@ func (d *digest) UnmarshalBinary(b []byte) error {
 	if len(b) != marshaledSize {
 		return errors.New("crypto/blake2s: invalid hash state size")
 	}
+	if size := int(b[len(magic)+10*4]); size == 0 || size > Size {
+		return errors.New("crypto/blake2s: invalid hash state digest size")
+	}
+	if offset := int(b[marshaledSize-1]); offset > BlockSize {
+		return errors.New("crypto/blake2s: invalid hash state block offset")
+	}
 	b = b[len(magic):]
 	for i := 0; i < 8; i++ {
 		b, d.h[i] = consumeUint32(b)
